@@ -40,6 +40,11 @@ def cases(rng, tier):
     return out
 
 
+def opbase_cliauth():
+    import opbase
+    return list(opbase.CLIAUTH)
+
+
 def _flip(s, i):
     ch = s[i]
     rep = "A" if ch != "A" else "B"
@@ -88,6 +93,8 @@ def _probe(R, slot, s):
         r = R.op_safe_raw("tokenCode", s)
     elif slot == "refreshGrant":
         r = R.op_safe_raw("refreshGrant", s)
+    elif slot == "bearerAuth":
+        r = R.op_safe_raw("bearerAuth", s)
     else:
         r = R.op_safe_raw("revoke", s)
     return r
@@ -95,7 +102,10 @@ def _probe(R, slot, s):
 
 def impl(c):
     rng = random.Random(c["seed"])
-    R = prov.Runner(c["oidc"], c["jwt"])
+    from idpyoidc.server.oauth2.token_revocation import TokenRevocation
+    # the revocation endpoint also accepts an access token as the client's credential (bearer_header)
+    R = prov.Runner(c["oidc"], c["jwt"], more_endpoints={"token_revocation": {"path": "revocation", "class": TokenRevocation,
+                                                                              "kwargs": {"client_authn_method": opbase_cliauth() + ["bearer_header"]}}})
     if c["jwt"]:
         # ID tokens of client_2 carry the signature algorithm of the JWT token handlers (their default, ES256)
         R.s.context.cdb["client_2"]["id_token_signed_response_alg"] = "ES256"
@@ -122,8 +132,8 @@ def impl(c):
     probes = []
     sids = [R._sid_of_grant(g) for g in R.gobj]
     for m in minted:
-        for slot in ("userinfo", "introspect"):
-            probes.append([slot, m[0], "genuine"])
+        for slot in ("userinfo", "introspect", "bearerAuth"):
+            probes.append([slot, m[0], "genuine" if slot != "bearerAuth" or m[1] == "access" else "genuine-wrong-slot"])
         for slot in ("tokenCode", "refreshGrant"):
             if not (slot == "tokenCode" and m[1] == "code") and not (slot == "refreshGrant" and m[1] == "refresh"):
                 probes.append([slot, m[0], "genuine-wrong-slot"])
@@ -136,7 +146,7 @@ def impl(c):
     pool += sids
     rng.shuffle(pool)
     for mu in pool[: c["nmut"]]:
-        for slot in ("tokenCode", "userinfo", "refreshGrant", "introspect", "revoke"):
+        for slot in ("tokenCode", "userinfo", "refreshGrant", "introspect", "revoke", "bearerAuth"):
             probes.append([slot, mu, "mutated"])
     before = R.projection()
     results = []
@@ -202,7 +212,8 @@ def compare(c, obs, outs):
 
 def oracle(c, obs):
     v = []
-    acc = {"tokenCode": {"code"}, "userinfo": {"access"}, "refreshGrant": {"refresh"}, "introspect": {"access", "refresh"}, "revoke": {"code", "access", "refresh"}}
+    acc = {"tokenCode": {"code"}, "userinfo": {"access"}, "refreshGrant": {"refresh"}, "introspect": {"access", "refresh"}, "revoke": {"code", "access", "refresh"},
+           "bearerAuth": {"access"}}
     by_val = {m[0]: m for m in obs["minted"]}
     for slot, s, kind, r in obs["results"]:
         if r:
@@ -211,6 +222,8 @@ def oracle(c, obs):
                 v.append({"cls": "unminted-string-honoured", "slot": slot, "kind": kind})
             elif m[1] not in acc[slot]:
                 v.append({"cls": "wrong-class-honoured", "slot": slot, "token_class": m[1]})
+            elif not m[3] and slot == "bearerAuth":
+                v.append({"cls": "dead-token-authenticates-client", "slot": slot, "token_class": m[1]})
     for slot, s, caller, who in obs["binding"]:
         if who is not None:
             m = by_val.get(s)
